@@ -48,11 +48,11 @@ func init() {
 var c09Octets = [][]byte{[]byte("user\x00pass"), {0x00}, {0xff, 0xfe, 0x00, 0x80}, []byte("=+/ *"), []byte("a"), {}}
 
 func c09Run(ctx *core.Ctx) {
-	ctx.Rule = "server half: TLS state {plaintext, after STARTTLS, implicit TLS} x AllowInsecureAuth x backend {auth-capable, not} x scripted multi-step mechanism exchanges (0..3 challenges of arbitrary octets incl. empty; success/failure) x initial response {none, '=', base64 of arbitrary octets, bad base64} x per-step client behaviour {base64 of octets incl. NUL/0xFF, empty line, bad base64, '*', 1100-octet response} x surrounding history {before greeting, after failure, after success, after RSET, after re-EHLO, plaintext success then STARTTLS}; client half: smtp.Client.Auth with a recording scripted sasl.Client against the real server (1..3 steps, octet values, client-side error at each step) and against a scripted fake server {non-base64 334, 5xx at step k, early 235}. Oracle: equality of the mechanism transcripts recorded on both sides with the wire, 334/235/503 where the statement fixes them, zero mechanism events where AUTH must be unreachable. Non-trivial: every case; distinct by case."
+	ctx.Rule = "server half: TLS state {plaintext, after STARTTLS, implicit TLS, STARTTLS accepted but the handshake failed (still plaintext)} x AllowInsecureAuth x backend {auth-capable, not} x scripted multi-step mechanism exchanges (0..3 challenges of arbitrary octets incl. empty; success/failure) x initial response {none, '=', base64 of arbitrary octets, bad base64} x per-step client behaviour {base64 of octets incl. NUL/0xFF, empty line, bad base64, '*', 1100-octet response} x surrounding history {before greeting, after failure, after success, after RSET, after re-EHLO, plaintext success then STARTTLS}; client half: smtp.Client.Auth with a recording scripted sasl.Client against the real server (1..3 steps, octet values, client-side error at each step) and against a scripted fake server {non-base64 334, 5xx at step k, early 235}. Oracle: equality of the mechanism transcripts recorded on both sides with the wire, 334/235/503 where the statement fixes them, zero mechanism events where AUTH must be unreachable. Non-trivial: every case; distinct by case."
 	ctx.Assumptions = []string{"'=' as a non-initial response is not generated", "a sasl.Client returning a nil response to a challenge is not judged"}
 	core.RunCases(ctx, func(emit func(c09Case)) {
 		idx := 0
-		for _, tls := range []string{"plain", "starttls", "implicit"} {
+		for _, tls := range []string{"plain", "starttls", "implicit", "failedtls"} {
 			for _, ins := range []bool{false, true} {
 				for _, ab := range []bool{false, true} {
 					for nch := 0; nch <= 3; nch++ {
@@ -301,6 +301,35 @@ func c09Srv(ctx *core.Ctx, c c09Case) {
 		e = cmd("EHLO c.test")
 		if advertises(e) != permitted() {
 			fail("C09:advertisement", fmt.Sprintf("after STARTTLS: AUTH advertised=%v but permitted=%v", advertises(e), permitted()))
+			return
+		}
+	}
+	if c.TLS == "failedtls" {
+		// STARTTLS is accepted but the peer never starts TLS: what it sends next is not a TLS
+		// record, the handshake fails, and whatever remains of the connection is still plaintext
+		r := cmd("STARTTLS")
+		if r.Code != 220 {
+			fail("C09:starttls", fmt.Sprintf("STARTTLS answered %s", r))
+			return
+		}
+		p.SendStr("NOOP\r\n")
+		if _, err := p.ReadUntilStall(); err != nil {
+			ctx.Add("failed_handshake_connection_closed", 1)
+			c09Sample(ctx, c, all)
+			return // the server gave the connection up: nothing is reachable any more
+		}
+		ctx.Add("failed_handshake_connection_continues_in_plaintext", 1)
+		e = cmd("EHLO c.test")
+		if e.Code != 250 {
+			if nr := cmd("EHLO c.test"); nr.Code != 250 {
+				c09Sample(ctx, c, all)
+				return
+			} else {
+				e = nr
+			}
+		}
+		if advertises(e) != permitted() {
+			fail("C09:advertisement-after-failed-handshake", fmt.Sprintf("after a failed STARTTLS handshake (connection still plaintext): AUTH advertised=%v but permitted=%v", advertises(e), permitted()))
 			return
 		}
 	}
